@@ -12,6 +12,8 @@ QUICK_Z3_MS = 3000
 
 
 def timeouts():
+    if os.environ.get('PYVC_CANARY'):
+        return (6000, 6)        # a deliberately broken body only has to be NOT proved: short budgets
     tier = os.environ.get('VERIF_TIER', 'quick')
     return (60000, 120) if tier == 'thorough' else (20000, 30)
 
